@@ -27,6 +27,14 @@ CHECKS = {
    text="Dense definitions of cat, constant / diagonal padding, diag (both directions), mode products, to_ttm, conj, clone in spec/TTOps.tla; TLC enumerates operands, axes, width vectors, fill values and mode subsets, checks the core-level concatenation against the dense definition, and every state is executed on the implementation and compared exactly.",
    note="Small scope (order<=2 exhaustive in quick, <=3 thorough, canonical order 4); operator padding only when every mode is padded.",
    technique="TLA+ dense semantics, TLC enumeration, replay into torchtt with exact comparison"),
+ "C05": dict(level=MC, design="§6 C05",
+   text="spec/Heap.tla is a state machine over a heap of TT objects with exact cores: 26 public operations (algebra, slicing, sums, cat, pad, diag, in-place set_core with changed mode size, reduce_dims) each as one action; TLC checks the invariant AllWF on every reachable state (exhaustive to depth 2/3, simulation to depth 8) and every behaviour is re-executed on torchtt, where after each call every live object must be well formed (cores vs N, M, R, shape, is_ttm) and the new object must have the model's kind, shape and exact value.",
+   note="Small scope (<=9 live objects, ranks<=6, orders<=4); operations with implementation-chosen ranks are covered at descriptor level by trace validation of recorded runs.",
+   technique="TLA+ heap state machine, TLC invariant checking (BFS + simulation), behaviours replayed call by call into torchtt with full-heap projection"),
+ "C06": dict(level=MC, design="§6 C06",
+   text="The action property Stable of spec/Heap.tla (no step changes an existing object except the target of set_core / reduce_dims) is checked by TLC on the model and enforced on the implementation by replaying every generated history and comparing, after the last call, every pre-existing live object bitwise (cores, metadata, torch version counters) with its snapshot and with the model's heap; views created earlier in a history remain live so writes through shared storage are visible.",
+   note="Small scope as C05; iterative routines with optional initial guesses are covered by the effects table run (see evidence).",
+   technique="TLA+ action property over heap histories, TLC, replay into torchtt with bitwise operand snapshots"),
 }
 
 NA = {}
